@@ -1,3 +1,243 @@
 import SymVerif.Model.Sieve
+import SymVerif.Lemmas.C33Trace
+import SymVerif.Lemmas.C33Strict
+import SymVerif.Lemmas.C33Orig
+/-!
+# C33 — the prime sieve yields exactly the primes after any call history
+
+Model: `SymVerif.Sieve` (`lean/SymVerif/Model/Sieve.lean`, the no-primesieve branch of
+`symengine/prime_sieve.cpp`).  Vocabulary (all from the `Lemmas/C33*.lean` files):
+
+* `np i` — the `i`-th prime (`Nat.nth Nat.Prime i`), `cnt n` — the number of primes `< n`;
+* `primesUpTo L` — `(List.range (L+1)).filter Nat.Prime`;
+* `Inv s` — `s.size ≤ s.buf.size`, `10 ≤ s.size`, `s.buf[i] = np i` for **every** `i < s.buf.size`
+  (also in the stale region left behind by `clear`), `0 < s.sieveBits`;
+* `WInv w` — `Inv w.s` and no iterator stands beyond the storage;
+* `IterRun L i out j` — `out` is what an iterator with limit `L` at position `i` may return:
+  the next prime (advance), or `L+1` only if the next prime exceeds the non-zero limit `L`;
+* `OpsOk ops` — decidable: every `gen` limit `< 2^31`, every sieve size positive and `< 2^30`
+  bits, every iterator limit `< 2^32 - 1` (the range where `Nat` and `unsigned` arithmetic agree).
+
+The theorems are about the very functions the driver `Drv/C33.lean` executes (`run`, `step`,
+`generatePrimes`, `nextPrime`, `extend`).
+-/
 namespace SymVerif.C33
+open SymVerif.Sieve
+
+/-! ## 1. No out-of-bounds access (repaired code) — and the defect in the original code -/
+
+/-- The repaired `_extend` never indexes `is_prime` or `_primes` out of range, never runs out of
+fuel, and stores exactly the primes needed: afterwards the cache holds `max(old, π(limit))`
+primes and the invariant still holds. -/
+theorem extend_correct (s : State) (limit : Nat) (hinv : Inv s) (hlim : limit < maxLimit) :
+    ∃ s', extend s limit = .ok s' ∧ Inv s' ∧ s'.size = max s.size (cnt (limit + 1)) ∧
+      s'.sieveBits = s.sieveBits ∧ s'.clearFlag = s.clearFlag ∧ s.buf.size ≤ s'.buf.size :=
+  extend_spec s limit hinv hlim
+
+theorem extend_no_oob (s : State) (limit : Nat) (hinv : Inv s) (hlim : limit < maxLimit) :
+    extend s limit ≠ .error .oob := by
+  obtain ⟨s', e, _⟩ := extend_spec s limit hinv hlim
+  rw [e]; simp
+
+example :=
+  extend_correct init 1000 inv_init (by decide)
+
+/-- **D15 in general**: with the original `finish = start + 2*segment + 1` the same function
+performs an out-of-bounds access as soon as `limit` lies beyond the first segment. -/
+theorem orig_extend_oob (fuel : Nat) (s : State) (limit : Nat) (hinv : Inv s)
+    (hlim : limit < 2 ^ (2 ^ fuel))
+    (h1 : Nat.sqrt limit ≤ s.back + 2 * s.sieveBits)
+    (h2 : max (s.back + 1) (Nat.sqrt limit + 1) + 2 * s.sieveBits + 1 ≤ limit) :
+    extendWith finishOrig (fuel + 1) s limit = .error .oob :=
+  extendWith_orig_oob fuel s limit hinv hlim h1 h2
+
+/-- The API-reachable witness of D15: `set_sieve_size(1); generate_primes(p, 100000)` on a fresh
+process (`8192` bits per segment). -/
+theorem orig_extend_oob_witness :
+    extendWith finishOrig 64 { init with sieveBits := 1 * 1024 * 8 } 100000 = .error .oob := by
+  have hinv : Inv { init with sieveBits := 1 * 1024 * 8 } :=
+    ⟨inv_init.size_le, inv_init.ten_le, inv_init.nth, by decide⟩
+  have hb : ({ init with sieveBits := 1 * 1024 * 8 } : State).back = 29 := by decide
+  have hbits : ({ init with sieveBits := 1 * 1024 * 8 } : State).sieveBits = 8192 := by decide
+  have hs : Nat.sqrt 100000 < 1000 := Nat.sqrt_lt'.2 (by decide)
+  apply extendWith_orig_oob 63 _ _ hinv
+  · calc 100000 < 2 ^ 31 := by decide
+      _ < 2 ^ 2 ^ 63 := Nat.pow_lt_pow_right (by omega) (by decide)
+  · rw [hb, hbits]; omega
+  · rw [hb, hbits]
+    generalize Nat.sqrt 100000 = q at hs
+    have : max (29 + 1) (q + 1) ≤ 1000 := max_le (by omega) (by omega)
+    omega
+
+/-- The smallest instance, by evaluation of the segment loop (segment of one bit). -/
+theorem orig_segLoop_oob_small :
+    (match segLoop finishOrig 1 40 41 30 init with | .error .oob => true | _ => false) = true := by
+  decide
+
+/-! ## 2. The invariant -/
+
+theorem inv_initial : Inv init ∧ WInv World.init := ⟨inv_init, winv_init⟩
+
+/-- every successful API call preserves the world invariant -/
+theorem step_preserves_inv (w w' : World) (op : Op) (out : List Nat) (hw : WInv w)
+    (hop : opOk op = true) (h : step w op = .ok (w', out)) : WInv w' := by
+  rcases step_spec w op hw hop with ⟨w1, out1, e, hw1, _⟩ | ⟨e, _⟩
+  · rw [e] at h
+    simp only [Except.ok.injEq, Prod.mk.injEq] at h
+    rw [← h.1]; exact hw1
+  · rw [e] at h; simp at h
+
+example : opOk (.gen 100000) = true ∧ opOk (.setSize 1) = true := by decide
+
+/-! ## 3. The core sieve lemma -/
+
+/-- One pass of the segment loop body: the marking loop stays in bounds and leaves bit `j`
+(standing for the odd number `start + 2j + 1 ≤ finish`) set iff that number is prime; the
+collecting loop then appends exactly the primes of the segment. -/
+theorem sieve_segment_correct (s : State) (hinv : Inv s) (start finish segment : Nat)
+    (hs : start % 2 = 0) (hs4 : 4 ≤ start) (hsf : start ≤ finish)
+    (hfin : finish < start + 2 * segment) (hc : s.size = cnt start)
+    (hq : ∀ q, q.Prime → q * q ≤ finish → q < start) :
+    ∃ a', markLoop s start finish (s.size + 1) 1 (Array.replicate segment true) = .ok a' ∧
+      a'.size = segment ∧
+      (∀ j, start + 2 * j + 1 ≤ finish → (a'[j]? = some true ↔ (start + 2 * j + 1).Prime)) ∧
+    ∃ s', collectLoop a' start finish (finish + 1) (start + 1) s = .ok s' ∧ Inv s' ∧
+      s'.size = cnt (finish + 1) ∧
+      s'.sieveBits = s.sieveBits ∧ s'.clearFlag = s.clearFlag ∧ s.buf.size ≤ s'.buf.size :=
+  segment_spec s hinv start finish segment hs hs4 hsf hfin hc hq
+
+/-- The arithmetic heart: an odd `n ∈ (start, finish]` is prime iff no odd prime below `start`
+with square `≤ finish` divides it — given that all primes `q` with `q² ≤ finish` are below `start`
+(what the `sqrt` recursion of `_extend` establishes). -/
+theorem sieve_unmarked_iff_prime {start finish n : Nat} (hs : 2 ≤ start)
+    (hq : ∀ q, q.Prime → q * q ≤ finish → q < start)
+    (hodd : n % 2 = 1) (h1 : start < n) (h2 : n ≤ finish) :
+    (∀ i, 1 ≤ i → i < cnt start → np i * np i ≤ finish → ¬ np i ∣ n) ↔ n.Prime :=
+  sieve_core hs hq hodd h1 h2
+
+example : (∀ i, 1 ≤ i → i < cnt 30 → np i * np i ≤ 100 → ¬ np i ∣ 91) ↔ Nat.Prime 91 :=
+  sieve_unmarked_iff_prime (start := 30) (finish := 100) (by omega)
+    (fun q _ hqq => by nlinarith) (by omega) (by omega) (by omega)
+
+/-! ## 4. generate_primes -/
+
+/-- From any state satisfying the invariant, `generate_primes(limit)` returns exactly the primes
+`≤ limit` in increasing order, and re-establishes the invariant. -/
+theorem generatePrimes_correct (s : State) (limit : Nat) (hinv : Inv s) (hlim : limit < maxLimit) :
+    ∃ s', generatePrimes s limit = .ok (s', (List.range (limit + 1)).filter (fun k => decide k.Prime)) ∧
+      Inv s' ∧ s'.sieveBits = s.sieveBits ∧ s'.clearFlag = s.clearFlag ∧
+      s.buf.size ≤ s'.buf.size :=
+  generatePrimes_spec s limit hinv hlim
+
+example :=
+  generatePrimes_correct init 100000 inv_init (by decide)
+
+/-! ## 5. next_prime -/
+
+/-- An iterator at position `i` (anywhere inside the storage — possibly in the stale region
+after a `clear` by somebody else, where `_primes[_index-1]` reads a value no longer logically
+stored) returns the `i`-th prime and advances; or, only when its non-zero limit is smaller than
+that prime and the prime is not cached, `limit + 1` without advancing; or reports that the
+extension target is outside the modelled range (`≥ 2^31`).  Never out of bounds. -/
+theorem nextPrime_correct (s : State) (it : Iter) (hinv : Inv s) (hidx : it.index ≤ s.buf.size) :
+    ∃ s', Inv s' ∧ s.buf.size ≤ s'.buf.size ∧ s'.sieveBits = s.sieveBits ∧
+      s'.clearFlag = s.clearFlag ∧
+      ((nextPrime s it = .ok (s', { it with index := it.index + 1 }, np it.index) ∧
+          it.index + 1 ≤ s'.buf.size ∧
+          (it.index < s.size ∨ it.limit = 0 ∨ np it.index ≤ it.limit)) ∨
+       (nextPrime s it = .ok (s', it, it.limit + 1) ∧ 0 < it.limit ∧ it.limit < np it.index ∧
+          s.size ≤ it.index) ∨
+       (nextPrime s it = .error .range ∧ s.size ≤ it.index ∧ maxLimit ≤ extendTarget it)) :=
+  nextPrime_spec s it hinv hidx
+
+example := nextPrime_correct init { index := 10, limit := 0 } inv_init (by decide)
+
+/-! ## 6. Histories -/
+
+/-- **Main theorem.** For every history with admissible arguments, the run from the fresh
+process state is a `GoodTrace`: every call succeeds with the right result (`OutOk`: `gen L`
+returns `primesUpTo L`, `iterNext` returns an `IterRun` from the iterator's position, all other
+iterators keep their position), except that the run may stop at an `iterNext` with `Err.range`
+(an extension target `≥ 2^31`, see `nextPrime_correct`). -/
+theorem history_correct (ops : List Op) (hops : OpsOk ops) :
+    ∃ wf, run World.init ops [] = (wf, (run World.init ops []).2) ∧
+      GoodTrace World.init ops (run World.init ops []).2 wf ∧ WInv wf := by
+  obtain ⟨outs, wf, e, gt, hwf⟩ := run_spec World.init ops [] winv_init hops
+  refine ⟨wf, ?_, ?_, hwf⟩
+  · rw [e]
+  · rw [e]; simpa using gt
+
+/-- No history ever produces an out-of-bounds access or exhausts the recursion fuel. -/
+theorem history_no_ub (ops : List Op) (hops : OpsOk ops) :
+    ∀ r ∈ (run World.init ops []).2, r ≠ .error .oob ∧ r ≠ .error .fuel := by
+  obtain ⟨wf, _, gt, _⟩ := history_correct ops hops
+  exact gt.no_ub
+
+/-- Every `generate_primes(L)` call of every history returns exactly the primes `≤ L`,
+increasing — whatever happened before. -/
+theorem history_gen_outputs (ops : List Op) (hops : OpsOk ops) (k limit : Nat)
+    (r : Except Err (List Nat)) (hop : ops[k]? = some (.gen limit))
+    (hr : (run World.init ops []).2[k]? = some r) :
+    r = .ok ((List.range (limit + 1)).filter (fun k => decide k.Prime)) := by
+  obtain ⟨wf, _, gt, _⟩ := history_correct ops hops
+  exact gt.gen k limit r hop hr
+
+/-- Position-free statement for iterators: for every iterator alive at the end of a history,
+everything it has returned since its creation (`iterLog`, computed from the printed outputs
+alone) is an `IterRun` from position 0 — consecutive primes without gaps or repeats, the end
+marker `limit+1` appearing only when the next prime exceeds the limit.  (Apply it to every
+prefix of a history to cover every intermediate moment.) -/
+theorem history_iter_outputs (ops : List Op) (hops : OpsOk ops) (slot : Nat) :
+    ∀ it, lookupIter (run World.init ops []).1.iters slot = some it →
+      IterRun it.limit 0 (iterLog slot ops (run World.init ops []).2 []) it.index := by
+  obtain ⟨wf, e, gt, _⟩ := history_correct ops hops
+  have : (run World.init ops []).1 = wf := by rw [e]
+  rw [this]
+  apply gt.iter_log slot []
+  intro it h
+  simp [World.init, lookupIter] at h
+
+/-- reading `IterRun`: without a limit the outputs are exactly the consecutive primes -/
+theorem iterRun_unlimited {i j : Nat} {out : List Nat} (h : IterRun 0 i out j) :
+    out = (List.range' i out.length).map np ∧ j = i + out.length := h.unlimited
+
+/-- reading `IterRun`: a caller looping `while ((p = next_prime()) <= L)` sees exactly the
+consecutive primes `≤ L` from position `i`; everything after them exceeds `L`. -/
+theorem iterRun_limited {L i j : Nat} {out : List Nat} (h : IterRun L i out j) :
+    ∃ m rest, out = (List.range' i m).map np ++ rest ∧ (∀ k, k < m → np (i + k) ≤ L) ∧
+      (∀ v ∈ rest, L < v) ∧ (rest ≠ [] → L < np (i + m)) := h.limited
+
+/-- Histories whose iterators all carry a limit in `(0, 2^31)`: **no error at all** — one
+successful result per call. -/
+theorem history_no_error (ops : List Op) (hops : OpsOkStrict ops) :
+    ∃ outs : List (List Nat), (run World.init ops []).2 = outs.map .ok ∧
+      outs.length = ops.length := by
+  obtain ⟨outs, e, len⟩ := run_strict World.init ops [] winv_init
+    (by intro k it h; simp [World.init, lookupIter] at h) hops
+  exact ⟨outs, by simpa using e, len⟩
+
+theorem GoodTrace.complete {w wf : World} {ops : List Op} {outs : List (Except Err (List Nat))}
+    (gt : GoodTrace w ops outs wf) (hr : ∀ r ∈ outs, r ≠ .error .range) :
+    outs.length = ops.length := by
+  induction ops generalizing w outs with
+  | nil => obtain ⟨rfl, _⟩ := gt; rfl
+  | cons op ops ih =>
+    rcases gt with ⟨w', out, rest, _, rfl, _, gt'⟩ | ⟨rfl, _, _⟩
+    · simp only [List.length_cons, Nat.add_right_cancel_iff]
+      exact ih gt' (fun r hr' => hr r (List.mem_cons_of_mem _ hr'))
+    · exact absurd rfl (hr _ List.mem_cons_self)
+
+/-- If a history printed no `Err.range`, every call produced a result. -/
+theorem history_complete (ops : List Op) (hops : OpsOk ops)
+    (hr : ∀ r ∈ (run World.init ops []).2, r ≠ .error .range) :
+    (run World.init ops []).2.length = ops.length := by
+  obtain ⟨wf, _, gt, _⟩ := history_correct ops hops
+  exact gt.complete hr
+
+-- non-vacuity: the hypotheses hold for concrete, non-trivial histories
+example : OpsOk [.setSize 1, .gen 100000, .setClear false, .iterNew 0 0, .iterNext 0 40, .clear,
+    .iterNext 0 5, .gen 32795] := by decide
+example : OpsOkStrict [.setBits 1, .iterNew 2 50, .iterNext 2 20, .gen 1000, .iterDel 2] := by decide
+example := history_gen_outputs [.setSize 1, .gen 100000] (by decide) 1 100000
+
 end SymVerif.C33
